@@ -67,9 +67,11 @@ def gen(rng, n):
             nodes += [['d', scen.Layout.j(pv, 'data'), 0o755], ['f', pre, 'first argument']]
         if v != '/' and not td_opt and rng.random() < 0.08:
             # another file system mounted exactly ON a candidate trash directory: it is then not on the file's volume
-            mp = rng.choice([lay.top2(v)] + ([lay.top1(v)] if lay.top[v][0] == 'sticky' else []))
-            nodes.append(['d', mp, 0o700])
-            lay.mounts.append(mp)
+            cands_mp = ([lay.top2(v)] if lay.top[v][1] != 'file' else []) + ([lay.top1(v)] if lay.top[v][0] == 'sticky' else [])
+            if cands_mp:
+                mp = rng.choice(cands_mp)
+                nodes.append(['d', mp, 0o700])
+                lay.mounts.append(mp)
         if lay.top1_can_hold(v) and rng.random() < 0.3:
             t1 = lay.top1(v)
             nodes += [['d', t1, 0o700], ['d', t1 + '/files', 0o700], ['d', t1 + '/info', 0o700]]
